@@ -83,9 +83,9 @@ func smtStrLit(s string) string {
 }
 
 func smtIsLit(v, lit string) string {
-	cs := []string{fmt.Sprintf("(= (str.len %s) %d)", v, len(lit))}
+	cs := []string{fmt.Sprintf("(= (s.len %s) %d)", v, len(lit))}
 	for i := 0; i < len(lit); i++ {
-		cs = append(cs, fmt.Sprintf("(= (select (str.arr %s) (+ (str.off %s) %d)) #x%02x)", v, v, i, lit[i]))
+		cs = append(cs, fmt.Sprintf("(= (select (s.arr %s) (+ (s.off %s) %d)) #x%02x)", v, v, i, lit[i]))
 	}
 	return "(and " + strings.Join(cs, " ") + ")"
 }
